@@ -158,7 +158,7 @@ def build(spec, p, symbolic, hprio=None, hprio_comp=None):
             kw.pop("auto_task")
             t = BaseSubProjectTask(file_path=ts.get("file"), name="T%d" % ti, **kw)
         else:
-            t = TaskCls("T%d" % ti, **kw)
+            t = TaskCls(ts.get("name", "T%d" % ti), **kw)  # "name": several tasks may share a name (skills are keyed by it)
         t._hprio = ti if hprio is None else hprio[ti]
         t._idx = ti
         M.tasks.append(t)
